@@ -8,9 +8,17 @@ ops:
   cmsgx <hex> <controllen>    -> gso               (Controllen smaller than the memory that follows Control)
   cmsgnil <controllen>        -> gso               (Control == nil)
   cmsgw lvl:typ:hex;…         -> gso               (buffer laid out by unix.CmsgSpace/CmsgLen from the messages)
+ the real `StdConn.ListenOut` loop over loopback sockets (recvmmsg slot reuse across reads):
+  reset listen <batch> <offloads> <gro> <gso>  -> `gro=<0|1> gso=<0|1>`  (fresh receiver running ListenOut + sender; the
+                                                  last two arguments are what the generator's probe of the environment saw)
+  lsend <size>…               -> `sent=<n>`        (one size: WriteTo, a plain datagram; several: one WriteBatch, a GSO
+                                                  burst where the kernel supports it; datagram k has bytes (37k+7i+3) mod 256)
+  lrecv                       -> `len:digest,…`    (what ListenOut's callback delivered since the last lrecv, in order;
+                                                  `timeout …` when the bytes sent did not all arrive within the bounded wait)
 -/
 import Nebula.Driver.Common
 import Nebula.Model.Udprecv
+import Nebula.Model.UdprecvListen
 import Nebula.Spec.Udprecv
 
 namespace Nebula.Driver.Udprecv
@@ -61,8 +69,88 @@ def parseCmsgs (s : String) : Option (List Spec.Udprecv.Cmsg) :=
       | _, _, _ => none
     | _ => none)
 
-def step (s : Unit) (args : List String) (impl : String) : Unit × Out :=
+/-- state of a listen case: the model's view of recvmmsg slot 0 (sequential sends land there), and what was
+sent since the last `lrecv`. -/
+structure St where
+  slot : Slot := Slot.fresh
+  gro : Bool := false
+  gso : Bool := false
+  seq : Nat := 0
+  pending : List (List (List UInt8)) := []
+
+def listenPayload (k n : Nat) : List UInt8 := (List.range n).map (fun i => UInt8.ofNat ((k * 37 + i * 7 + 3) % 256))
+
+def pieceText (b : List UInt8) : String :=
+  s!"{b.length}:{b.foldl (fun h x => (h * 31 + x.toNat) % 4294967296) 0}"
+
+def piecesText (ps : List (List UInt8)) : String :=
+  if ps.isEmpty then "-" else join "," (ps.map pieceText)
+
+/-- the fills the kernel hands to the receiver for one `lsend`, if it coalesces as the sender planned: a
+uniform burst (all segments of size g, the last one at most g) is one UDP_GRO superdatagram, anything else
+arrives datagram by datagram.  (How the kernel really coalesces does not matter to the oracle — by
+`listen_history_splits_exactly` the delivered sequence is the sent one either way.) -/
+def fillsOf (coalesce : Bool) (burst : List (List UInt8)) : List Fill :=
+  match burst with
+  | d :: _ :: _ =>
+    let g := d.length
+    if coalesce ∧ 0 < g ∧ burst.dropLast.all (fun x => x.length == g) ∧
+        (burst.getLast?.map (fun x => decide (x.length ≤ g))).getD false then
+      [{ payload := burst.flatten, msgs := [{ level := 17, type := 104, data := Spec.Udprecv.leBytes 4 g }] }]
+    else burst.map (fun p => { payload := p, msgs := [] })
+  | _ => burst.map (fun p => { payload := p, msgs := [] })
+
+/-- does the history contain the stale-size hazard: a plain datagram longer than the gso_size still sitting
+in the slot's ancillary bytes? -/
+def hazard (s : Slot) : List Fill → Bool
+  | [] => false
+  | f :: fs =>
+    let stale := match parse false s.ctrl with
+      | .gso g _ => decide (0 < g ∧ g < (f.payload.length : Int))
+      | .oob => false
+    (f.msgs.isEmpty && stale) || hazard (listenStep s f).1 fs
+
+def isPrefix (a b : List String) : Bool :=
+  match a, b with
+  | [], _ => true
+  | _, [] => false
+  | x :: xs, y :: ys => x == y && isPrefix xs ys
+
+def step (s : St) (args : List String) (impl : String) : St × Out :=
   match args with
+  | ["reset", "listen", _batch, _off, gro, gso] =>
+    -- whether the kernel grants UDP_GRO / UDP_SEGMENT is an observation of the environment, not behaviour under
+    -- test: a well-formed report is taken as is (it only selects branch tags and the hypothetical fills below — the
+    -- oracle of `lrecv` does not depend on it); the op's own values (the generator's probe) are the fallback
+    let envs := ["gro=0 gso=0", "gro=0 gso=1", "gro=1 gso=0", "gro=1 gso=1"]
+    let m := if envs.contains impl then impl else s!"gro={gro} gso={gso}"
+    ({ gro := m.startsWith "gro=1", gso := m.endsWith "gso=1" },
+     { model := m, verdict := "ok", tag := if m.startsWith "gro=1" then "triv:listen-open-gro" else "triv:listen-open-plain" })
+  | "lsend" :: sizes =>
+    match sizes.mapM natArg with
+    | some ns =>
+      if ns.isEmpty then (s, badOp) else
+      let burst := (ns.zipIdx).map (fun (n, i) => listenPayload (s.seq + i) n)
+      ({ s with seq := s.seq + ns.length, pending := s.pending ++ [burst] },
+       { model := s!"sent={ns.length}", verdict := "ok", tag := if ns.length == 1 then "triv:lsend-plain" else "triv:lsend-burst" })
+    | none => (s, badOp)
+  | ["lrecv"] =>
+    let sent := s.pending.flatten
+    let fills := (s.pending.map (fillsOf (s.gro && s.gso))).flatten
+    -- without GRO ListenOut runs with cmsgSpace = 0: segSize stays 0
+    let r := if s.gro then listenRun s.slot fills else (s.slot, (fills.map (fun f => deliver f.payload 0)).flatten)
+    let m := piecesText r.2
+    let want := piecesText sent
+    let tag :=
+      if !s.gro then "triv:listen-nogro"
+      else if hazard s.slot fills then "listen:plain-longer-than-stale-gso"
+      else if fills.any (fun f => !f.msgs.isEmpty) then "listen:gro" else "listen:plain"
+    let s' := { s with slot := r.1, pending := [] }
+    if impl.startsWith "timeout " ∧ isPrefix (((impl.drop 8).toString.splitOn ",").filter (· ≠ "-")) (sent.map pieceText) then
+      -- the environment did not deliver everything in time and what did arrive is an undamaged prefix: skip
+      (s', { model := impl, verdict := "ok", tag := "triv:listen-timeout" })
+    else
+      (s', { model := m, verdict := if impl == want then "ok" else s!"bad recv-datagram-boundaries-changed sent={want.take 200}", tag := tag })
   | ["consts"] =>
     let m := s!"{sizeofCmsghdr} {cmsgLen 0} {cmsgSpace 4} {solUDP} {udpGRO} {Gen.urx_udpGROCmsgPayload} le"
     (s, { model := m, verdict := expect "layout-constants" impl m, tag := "consts" })
@@ -132,6 +220,6 @@ def step (s : Unit) (args : List String) (impl : String) : Unit × Out :=
     | none => (s, badOp)
   | _ => (s, badOp)
 
-def main : IO Unit := runEngine () step
+def main : IO Unit := runEngine ({} : St) step
 
 end Nebula.Driver.Udprecv
